@@ -786,7 +786,14 @@ func runC17(c *core.Ctx) {
 				if k, isK := core.IntConst(info, rs.Results[0]); isK && k == 0 {
 					o.At(fn.Site(rs, "empty"))
 					ok = g.GuardedBy(r, func(a core.Atom) bool {
-						return !a.Neg && strings.ReplaceAll(core.ExprStr(a.Expr), " ", "") == "len(w.tail)==0"
+						if a.Neg || a.Tag != nil {
+							return false
+						}
+						if strings.ReplaceAll(core.ExprStr(a.Expr), " ", "") == "len(w.tail)==0" {
+							return true
+						}
+						// n := len(w.tail); if n == 0
+						return resolveText(g, r, a.Expr, 3) == "len(w.tail)==0"
 					})
 					// nothing written on the way
 					for _, cv := range callVerticesSuffix(g, ".Put", ".Alloc") {
